@@ -154,10 +154,16 @@ type serverTransportStream struct {
 }
 
 func (ts *serverTransportStream) SetHeader(md metadata.MD) error {
+	if s, ok := ts.ss.(*serverStream); ok {
+		return s.setHeader(md) // as in gRPC, where only the stream's own SetHeader checks the metadata
+	}
 	return ts.ss.SetHeader(md)
 }
 
 func (ts *serverTransportStream) SendHeader(md metadata.MD) error {
+	if s, ok := ts.ss.(*serverStream); ok {
+		return s.sendHeader(md)
+	}
 	return ts.ss.SendHeader(md)
 }
 
